@@ -397,6 +397,15 @@ def run_k4(F, rep, entries, audit, bug_audit, rule="K4 may-panic", stop=(), skip
                                   len(sites), kind, fp, cnt, reason, chain_of(seen, f, None)), site)
             else:
                 rep.ok(rule, "%s: %s x%d audited: %s" % (fp, kind, len(sites), reason), site)
+    glob_cur = defaultdict(int)
+    for fp_, sites_ in bug_fns.items():
+        for s_ in sites_:
+            glob_cur[bug_message(s_.fn, s_)] += 1
+    glob_frozen = defaultdict(int)
+    for k_, v_ in FINGERPRINTS.items():
+        if k_.startswith(rep.pid + "|") and k_.endswith("|bug-class"):
+            for m_ in v_:
+                glob_frozen[m_] += 1
     for fp, sites in sorted(bug_fns.items()):
         ok = None
         for ap, reason in bug_audit.items():
@@ -415,6 +424,12 @@ def run_k4(F, rep, entries, audit, bug_audit, rule="K4 may-panic", stop=(), skip
             for x in frozen:
                 if x in extra:
                     extra.remove(x)
+            # a site that merely moved between audited functions (helper inlined / extracted) is the same audited
+            # site: only messages whose count over all audited functions grew are new
+            extra = [x for x in extra if glob_cur.get(x, 0) > glob_frozen.get(x, 0)]
+            if not extra:
+                rep.ok(rule, "%s: %d bug-class sites (%s; a site moved here from another audited function)" % (fp, len(sites), ok), site)
+                continue
             rep.violation("%s|bug-class|audit-stale" % fp, rule,
                           "%s holds internal-error sites that were not there when the function was audited (%s): %s. `bug!`/`assume` panic in debug builds; "
                           "audit the new site (is its condition out of reach of every input?) and refreeze (tools/k4_freeze.py)" % (fp, ok, extra), site)
